@@ -79,17 +79,15 @@ impl RollingChecksum {
         let len = data.len();
 
         for (i, &byte) in data.iter().enumerate() {
-            a = a.wrapping_add(u32::from(byte));
-            // Weight is (len - i) so first byte has highest weight
-            // Truncation is intentional: checksum uses 32-bit arithmetic
-            b = b.wrapping_add((len - i) as u32 * u32::from(byte));
+            a = (a + u32::from(byte)) % Self::MOD;
+            // Weight is (len - i) so first byte has highest weight. Reduce the
+            // weight and the running sums modulo MOD at every step: a wrapped
+            // 32-bit sum is not congruent to the exact sum (2^32 % MOD != 0).
+            let weight = ((len - i) % Self::MOD as usize) as u32;
+            b = (b + weight * u32::from(byte)) % Self::MOD;
         }
 
-        let result = Self {
-            a: a % Self::MOD,
-            b: b % Self::MOD,
-            count: len,
-        };
+        let result = Self { a, b, count: len };
         debug_assert!(result.a < Self::MOD, "a must be < MOD after init");
         debug_assert!(result.b < Self::MOD, "b must be < MOD after init");
         result
@@ -139,16 +137,14 @@ impl RollingChecksum {
         let old = u32::from(old_byte);
         let new = u32::from(new_byte);
 
-        // Update a: remove old, add new
-        self.a = (self.a.wrapping_sub(old).wrapping_add(new)) % Self::MOD;
+        // Update a: remove old, add new. Add MOD before subtracting so the
+        // intermediate never goes below zero (a wrapped subtraction is not
+        // congruent modulo MOD).
+        self.a = (self.a + Self::MOD - old + new) % Self::MOD;
 
         // Update b: remove old's contribution (it was weighted by count), add new a
-        // Truncation is intentional: checksum uses 32-bit arithmetic
-        self.b = (self
-            .b
-            .wrapping_sub(self.count as u32 * old)
-            .wrapping_add(self.a))
-            % Self::MOD;
+        let removed = ((self.count % Self::MOD as usize) as u32 * old) % Self::MOD;
+        self.b = (self.b + Self::MOD - removed + self.a) % Self::MOD;
 
         debug_assert!(self.a < Self::MOD, "a must be < MOD after roll");
         debug_assert!(self.b < Self::MOD, "b must be < MOD after roll");
